@@ -2,6 +2,15 @@
 # Regenerates MANIFEST.json from the table below (kept as a script so the file stays valid and consistent).
 import json, sys
 claimed = {
+ "C11": dict(level="exploration", design="§4 C11", technique="deterministic simulation (history dimension only): seeded histories of constructor-input / accessor-output mutations over a heap of live values under owned map order, checked step by step against a reference model built from universe indices; collision-family sub-space enumerated",
+   text="Seeded exploration of mutation histories (build from a buffer, mutate the buffer afterwards, mutate Slice()/Map() results, early-stopped iteration, JSON/Cedar round trips, nesting) on a universe built to collide in the internal hash; after every step every live value is compared with an index-based model (length, membership, equality laws, operators, decode(encode)). All 4680 member sequences of length <= 4 over the 8-element collision family are enumerated each run. This is the thinnest use of the technique here: no fault kinds exist on this surface and none are pretended.",
+   note="Trusted: the harness' model (scalar equality = same universe index), the evaluator for the operator cross-check. Sampling beyond the enumerated family."),
+ "C19": dict(level="exploration", design="§4 C19", technique="deterministic simulation: cooperative seeded goroutine scheduler over statement-level yield points inserted into a scratch copy, reflection snapshots of shared inputs and all package-level variables before/during/after every read-only operation; auxiliary free-running run under the Go race detector (runtime monitoring, labelled)",
+   text="Mode 1 decides 'inputs never mutated': every read-only operation runs alone with a deep reflection snapshot of all shared inputs and of every package-level variable compared before, at sampled yield points during, and after. Mode 2 decides 'returns what it would return alone': 2-4 tasks of read-only operations are interleaved by a seeded cooperative scheduler (real goroutines, one baton, every preemption from the schedule tape) and each result is compared with its solo result, the snapshot at every context switch. Mode 3 (auxiliary, not deterministic) runs the same workload free on all cores under -race.",
+   note="Trusted: the soundness argument 'no write to shared inputs or globals => no race between read-only calls'; blind spots of the reflection walker (closure variables, runtime pools, same-value writes) are covered only by the race-detector mode, whose interleavings are not controlled. Statement-granularity interleaving under sequential consistency."),
+ "C20": dict(level="exploration", design="§4 C20", technique="deterministic simulation (history dimension): seeded operation histories against a live PolicySet with marshal/unmarshal/load 'restarts' under owned map order, refinement-checked step by step against a plain map model; short histories enumerated",
+   text="Seeded exploration of container histories (add/replace/remove/get/Map/All/collect/marshal/JSON and Cedar round trips that replace the live set/document loads) with a map model compared after every step: contents, return values, pointer identity, authorization on a request panel, lexicographic emission, ids policy0..n-1 with positions and file name after a load. All 2800 histories of length <= 4 over 7 operations are enumerated each run.",
+   note="Trusted: the map model, canonical policy text as the identity of a policy, cedar.Authorize over a PolicyMap as the reference for 'depends only on the contents'."),
  "C05": dict(level="fault_enumeration", design="§4 C05", technique="deterministic simulation: batch.Authorize under a simulated context (logical clock), failing/cancelling callback at every k, custom iterator and owned map order; oracle = the harness' own Cartesian enumeration + substitution + cedar.Authorize",
    text="For every generated scenario the batch authorizer is run fault-free against a brute-force reference (own enumeration of the product, own substitution, cedar.Authorize per element: exactly-once delivery, substituted request, decision, reason set), and then once for EVERY position k at which the callback fails or cancels the context, with the context cancelled before the call, and with cancellation at sampled instants of the logical clock (yield points inside partial evaluation). Fault positions of a scenario are enumerated, scenarios are sampled.",
    note="Trusted: cedar.Authorize as the reference for a concrete request (that is the property's definition), the harness' substitution and product loop, errors.Is for error identity. Relaxations: at most one callback may start after an asynchronous cancellation; nil accepted when cancellation happens at the last element."),
